@@ -2,7 +2,7 @@
 A candidate is accepted iff executing it yields a violation of the same oracle."""
 import copy, time
 from .outcome import VIOLATION
-from .runner import run_plan
+from .runner import run_plan_iso as run_plan
 
 
 def _same(out, oracle):
